@@ -100,6 +100,8 @@ def run(pid, tier, seed):
                         if len(chk.samples) < 1 and confine and k == 3:
                             chk.sample(dict(case, result_head=out[:600]))
         remover_correspondence(chk, drv, quick)
+        if pid == "C15":
+            on_disk(chk, seed)
         for g, (case, in_block) in zip(drv.ask_many(reqs), meta):
             model = sorted((str(i[0]), None if i[1] == "none" else str(i[1])) for i in g)
             chk.rel("corr.C16.movable", model == sorted(in_block), dict(case, impl=sorted(in_block), model=model))
@@ -108,6 +110,91 @@ def run(pid, tier, seed):
         pd.close()
         drv.close()
     return chk.finish(proof, None)
+
+
+ON_DISK_CFG = (
+    "import os\nfrom monkeytype.config import DefaultConfig\nfrom monkeytype.db.sqlite import SQLiteStore\n\n\n"
+    "class Cfg(DefaultConfig):\n    def trace_store(self):\n        return SQLiteStore.make_store(os.environ['C15_DB'])\n\n\nCONFIG = Cfg()\n")
+
+
+def on_disk(chk, seed):
+    """`monkeytype apply` on files as they are on disk (the CLI handler reads and rewrites the file itself): sources in ASCII,
+    in UTF-8 with non-ASCII literals, with a BOM, and with a latin-1 / cp1252 coding cookie.  Either the command refuses and
+    the file is untouched, or the file - read back the way Python reads it, coding cookie honoured - has the same bodies,
+    string literals included."""
+    import importlib
+    import io
+    import os
+    import shutil
+    import sys
+    import tempfile
+    import tokenize
+    from monkeytype import cli
+    from monkeytype.db.sqlite import SQLiteStore
+    from monkeytype.tracing import CallTrace
+    d = tempfile.mkdtemp(prefix="mtv_c15disk_")
+    tag = "c15d%d_%d" % (os.getpid(), seed % 100000)
+    body = ('def greet(name, times=1):\n    """Dit bonjour \u00e0 quelqu\'un."""\n    return "caf\u00e9 " + name * times\n\n\n'
+            'LABEL = "na\u00efve \u00a3"\n')
+    variants = [("ascii", "def greet(name, times=1):\n    return 'hi ' + name * times\n\n\nLABEL = 'x'\n", "ascii", b""),
+                ("utf8", body, "utf-8", b""), ("utf8_bom", body, "utf-8", b"\xef\xbb\xbf"),
+                ("latin1_cookie", "# -*- coding: latin-1 -*-\n" + body, "latin-1", b""),
+                ("cp1252_cookie", "# coding: cp1252\n" + body, "cp1252", b"")]
+    sys.path.insert(0, d)
+    try:
+        open(os.path.join(d, tag + "_cfg.py"), "w").write(ON_DISK_CFG)
+        for vname, text, enc, prefix in variants:
+            name = "%s_%s" % (tag, vname)
+            path = os.path.join(d, name + ".py")
+            raw = prefix + text.encode(enc)
+            open(path, "wb").write(raw)
+            importlib.invalidate_caches()
+            mod = importlib.import_module(name)
+            db = os.path.join(d, name + ".sqlite3")
+            SQLiteStore.make_store(db).add([CallTrace(mod.greet, {"name": str, "times": int}, str)])
+            os.environ["C15_DB"] = db
+            out, err = io.StringIO(), io.StringIO()
+            chk.evaluations += 1
+            case = {"on_disk": vname, "encoding": enc}
+            try:
+                rc, exc = cli.main(["-c", tag + "_cfg:CONFIG", "apply", name], out, err), None
+            except BaseException as e:
+                rc, exc = None, e
+            after = open(path, "rb").read()
+            chk.count("on_disk.%s.%s" % (vname, "applied" if rc == 0 else "refused"))
+            if rc != 0:
+                if after != raw:
+                    chk.fail("on-disk-refused-but-changed", dict(case, rc=rc, error=repr(exc)[:200], stderr=err.getvalue()[-300:]))
+                continue
+            try:
+                with tokenize.open(path) as f:
+                    new_text = f.read()
+                new_tree = ast.parse(new_text)
+            except Exception as e:
+                chk.fail("on-disk-unreadable", dict(case, error=repr(e)[:300]))
+                continue
+            old_tree = ast.parse(text)
+
+            def bodies(tree):
+                res = {}
+                for n in tree.body:
+                    if isinstance(n, (ast.FunctionDef, ast.AsyncFunctionDef)):
+                        res[n.name] = [ast.dump(x) for x in n.body]
+                    elif not isinstance(n, (ast.Import, ast.ImportFrom)):
+                        res.setdefault("<module>", []).append(ast.dump(n))
+                return res
+            if bodies(new_tree) != bodies(old_tree):
+                lits = lambda t: [c.value for c in ast.walk(t) if isinstance(c, ast.Constant) and isinstance(c.value, str)]
+                chk.fail("on-disk-bodies", dict(case, literals_before=lits(old_tree), literals_after=lits(new_tree)))
+            fn = next(n for n in new_tree.body if isinstance(n, ast.FunctionDef))
+            if fn.returns is None:
+                chk.fail("on-disk-not-applied", dict(case, result=new_text[:400]))
+            chk.nontriv("on-disk|" + vname)
+    finally:
+        sys.path.remove(d)
+        for m in [m for m in sys.modules if m.startswith(tag)]:
+            del sys.modules[m]
+        shutil.rmtree(d, ignore_errors=True)
 
 
 def alias_one_import(stub_text, src=""):
